@@ -60,6 +60,9 @@ pub fn wave_value(spec: &str, k: usize, index: usize, len: usize) -> Option<f64>
             let e = (splitmix64(h) % 81) as i32 - 40;
             noise * (2.0f64).powi(e)
         }
+        // subnormal-range samples: noise scaled into the subnormal range of f32 / of f64 (gradual underflow must be kept)
+        "s32" => noise * f64::from_bits(0x3730000000000000),
+        "s64" => noise * f64::from_bits(0x0000000400000000),
         "poi" => {
             if k >= index && k < index + len {
                 noise
